@@ -339,6 +339,7 @@ def drive(pid: str, tier: str, seed: int, workers: int | None = None,
     determinism = {'pairs': 0, 'mismatches': 0}
     wall_hit = False
     nontriv: set[str] = set()
+    nontriv_cases: set[str] = set()
     ev_d: set[str] = set()
     shapes: set[str] = set()
     with cf.ProcessPoolExecutor(workers, mp_context=ctx,
@@ -372,6 +373,11 @@ def drive(pid: str, tier: str, seed: int, workers: int | None = None,
                     ev_d.update(rec['event_digests'])
                     shapes.update(rec['shapes'])
                     nontriv.update(rec['nontrivial'])
+                    if rec['nontrivial']:
+                        nontriv_cases.add(hashlib.sha256(repr((
+                            sorted(rec['event_digests']),
+                            sorted(rec['nontrivial']))).encode()
+                        ).hexdigest())
                     if rec['exhaustive']:
                         agg.exhaustive = True
                     if rec['harness_errors']:
@@ -466,8 +472,13 @@ def drive(pid: str, tier: str, seed: int, workers: int | None = None,
         'level': case.level,
         'coverage': {
             'evaluations': evaluations,
-            'distinct_nontrivial': len(nontriv),
-            'rule': case.rule,
+            'distinct_nontrivial': len(nontriv_cases),
+            'distinct_nontrivial_classes': len(nontriv),
+            'rule': case.rule + (
+                ' || distinct_nontrivial = cases with at least one '
+                'non-vacuous oracle evaluation, distinct by (event digests, '
+                'classes reached); distinct_nontrivial_classes = distinct '
+                'classes (as named above) reached over the whole run'),
             'samples': samples,
             'exhaustive': bool(agg.exhaustive),
             'enumerated_cases': len(case.fixed_plans(tier)),
@@ -492,11 +503,17 @@ def drive(pid: str, tier: str, seed: int, workers: int | None = None,
         'wall_s': round(wall, 2),
         'violations': reported,
     }
-    os.makedirs(os.path.join(VERIF, 'evidence'), exist_ok=True)
-    with open(os.path.join(VERIF, 'evidence', f'{pid}.json'), 'w') as f:
+    # evidence/ only ever describes /repo itself; runs against a scratch
+    # copy (mutants, seeded changes, refactors) write next to it
+    ev_dir = 'evidence' if os.path.realpath(REPO) == '/repo' \
+        else 'evidence_scratch'
+    evidence['coverage']['repo'] = _repo_identity()
+    os.makedirs(os.path.join(VERIF, ev_dir), exist_ok=True)
+    with open(os.path.join(VERIF, ev_dir, f'{pid}.json'), 'w') as f:
         json.dump(evidence, f, indent=1, default=repr)
     print(f'[{pid}] {evaluations} cases, {agg.n_sims} simulated runs, '
-          f'{len(nontriv)} distinct non-trivial, violations={reported}, '
+          f'{len(nontriv_cases)} distinct non-trivial cases '
+          f'({len(nontriv)} classes), violations={reported}, '
           f'known={len(known_lines)}, wall={wall:.1f}s', flush=True)
     if reported:
         return 1
@@ -505,6 +522,21 @@ def drive(pid: str, tier: str, seed: int, workers: int | None = None,
             print(f'[{pid}] HARNESS ERROR: {e}', file=sys.stderr)
         return 2
     return 0
+
+
+def _repo_identity() -> dict[str, Any]:
+    import subprocess
+
+    def git(*a: str) -> str:
+        try:
+            return subprocess.run(
+                ['git', '-C', REPO, *a], capture_output=True, text=True,
+                timeout=20).stdout.strip()
+        except Exception:  # noqa: BLE001
+            return ''
+    return {'path': os.path.realpath(REPO), 'head': git('rev-parse', 'HEAD'),
+            'dirty_files': [ln[3:] for ln in
+                            git('status', '--porcelain').splitlines()][:20]}
 
 
 def write_replay(pid: str, plan_path: str, out_path: str) -> int:
